@@ -360,8 +360,33 @@ class SynonymCase(Case):
           continue
         for idx in np.ndindex(*a.a.shape):
           pa, pb = P.lift(a.a[idx]), P.lift(b.a[idx])
-          cl.append(('synonym-%d-identical-behaviour%s' % (k, list(idx)), E.TRUE if pa.same(pb) else pa.eq(pb)))
+          if pa.same(pb):
+            cl.append(('synonym-%d-identical-behaviour%s' % (k, list(idx)), E.TRUE))
+            continue
+          # a concrete disagreement settles the clause at once (two different projections are hard
+          # for the solver to tell apart within its budget)
+          wit = _concrete_difference(pa, pb)
+          if wit is not None:
+            cl.append(('synonym-%d-identical-behaviour%s: differs at %s' % (k, list(idx), wit), E.FALSE))
+          else:
+            cl.append(('synonym-%d-identical-behaviour%s' % (k, list(idx)), pa.eq(pb)))
     return cl
+
+
+def _concrete_difference(pa, pb, trials=12):
+  import random
+  from fractions import Fraction as Fr
+  names = E.free_vars([pa, pb], [])
+  rnd = random.Random(1234)
+  for _ in range(trials):
+    env = {n: Fr(rnd.randint(-12, 12), 4) for n in names}
+    try:
+      va, vb = pa.eval(env), pb.eval(env)
+    except Exception:  # pylint: disable=broad-except
+      return None
+    if abs(va - vb) > Fr(1, 10 ** 6):
+      return json.dumps({n: str(v) for n, v in sorted(env.items())})[:300]
+  return None
 
 
 CASES = {'config': ConfigCase(), 'synonym': SynonymCase()}
